@@ -145,6 +145,8 @@ class Ctx:
         H["core::str::traits::<impl core::ops::Index<I> for str>::index"] = self.m_index
         H["core::slice::index::<impl core::ops::Index<I> for [T]>::index"] = self.m_bytes_index
         H["core::cmp::impls::<impl core::cmp::PartialEq<&B> for &A>::eq"] = self.m_ref_eq
+        H["core::slice::<impl [T]>::get"] = self.m_bytes_get
+        H["core::slice::<impl [T]>::starts_with"] = self.m_bytes_starts_with
         H["core::str::<impl str>::char_indices"] = self.m_char_indices
         H["core::iter::Iterator::nth"] = self.m_nth
         H["<core::str::Chars<'a> as core::iter::Iterator>::next"] = self.m_chars_next
@@ -291,6 +293,58 @@ class Ctx:
             self.n += 1
             return [(st, Ref(val=TStr([("b", x) for x in bs[a.k:b.k]], "bytes%d" % self.n)))]
         return NotImplemented
+
+    def m_bytes_get(self, eng, st, c, args, dest_tid, t):
+        """bytes.get(a..b) of a template's bytes: None when the range provably leaves the slice, else Some(what indexing gives)"""
+        from .strmodels import range_of
+        s = _str_of(eng, st, args[0])
+        if s is None or isinstance(args[1], Int) or self.els_of(s) is None:
+            return NotImplemented
+        rg = range_of(eng, st, args[1], s.len)
+        if rg is None:
+            return NotImplemented
+        a, b = rg
+        if implies(st.cons, s.len - b + 1, "<=", st.bnd) or implies(st.cons, b - a + 1, "<=", st.bnd):
+            return [(st, eng.mk_option(dest_tid, None))]
+        if not (implies(st.cons, b - s.len, "<=", st.bnd) and implies(st.cons, a - b, "<=", st.bnd)):
+            return NotImplemented
+        r = self.m_bytes_index(eng, st, c, args, None, t)
+        if r is NotImplemented:
+            return NotImplemented
+        return [(s2, eng.mk_option(dest_tid, v)) for s2, v in r]
+
+    def m_bytes_starts_with(self, eng, st, c, args, dest_tid, t):
+        """bytes.starts_with(needle) on a template's bytes with a constant needle: byte-wise, exact when every byte is decided"""
+        s = _str_of(eng, st, args[0])
+        p = _str_of(eng, st, args[1])
+        if s is None or p is None or p.s is None:
+            return NotImplemented
+        els = self.els_of(s)
+        if els is None:
+            return NotImplemented
+        need = p.s.encode("utf-8")
+        bs, whole = [], True  # the leading bytes, as far as they are known
+        for e in els:
+            if len(bs) >= len(need):
+                break
+            b1 = self.bytes_of([e])
+            if b1 is None:
+                whole = False  # a number run: non-empty, but its text is opaque
+                break
+            bs.extend(b1)
+        for i, ch in enumerate(need):
+            if i >= len(bs):
+                return [(st, Bool(FALSE))] if whole else NotImplemented
+            x = bs[i]
+            lo, hi = interval(x, st.bnd) if isinstance(x, Lin) else (x, x)
+            if lo == hi:
+                if lo != ch:
+                    return [(st, Bool(FALSE))]
+            elif not (lo <= ch <= hi):
+                return [(st, Bool(FALSE))]
+            else:
+                return NotImplemented
+        return [(st, Bool(TRUE))]
 
     def m_ref_eq(self, eng, st, c, args, dest_tid, t):
         """&[u8] == &[u8] / &str == &str where a template is involved: element-wise, exact when every element is decided"""
